@@ -1,5 +1,6 @@
 import ServlinVerif.Props.C06
 import ServlinVerif.Props.C06RoundTrip
+import ServlinVerif.Props.C06Chunked
 open Servlin.C06
 #print axioms C06_dup_refused
 #print axioms C06_head_shape
@@ -10,3 +11,5 @@ open Servlin.C06
 #print axioms parse_rendered
 #print axioms reason_ok
 #print axioms decVal_decimal
+#print axioms C06_parses_back_chunked
+#print axioms parse_rendered_chunked
